@@ -16,17 +16,21 @@ RtApplies(e) == e.rt_dir # "" /\ e.rt_back_exit = 0 /\ e.rt_in # "" /\ e.rt_back
 RtDiag(e) == IF RtApplies(e) /\ <<e.kind, e.rt_dir>> \notin RoundTripExact /\ e.rt_in # e.rt_back
              THEN PrintT(<<"DRIFT", tl, "rt-differs " \o e.kind \o " " \o e.rt_dir>>)
              ELSE TRUE
+\* the library's view, filtered by the spec's own glob matcher when the run had a --filter
+LibViewOf(e) == IF e.filt = <<>> THEN ToSet(e.libview)
+                ELSE {e.libview[i] : i \in {j \in 1..Len(e.libview) : GlobMatch(e.filt, e.libchars[j])}}
 RunOf(e) == [fam |-> e.fam, cmd |-> e.cmd, input |-> e.input, lib |-> e.lib, libval |-> e.libval,
-             missing |-> e.missing, skip |-> e.skip]
+             missing |-> e.missing, skip |-> e.skip, sel |-> e.sel]
 OutcomeOf(e) == [exit |-> e.exit, says_fail |-> e.says_fail, want |-> PairSet(e.want), got |-> PairSet(e.got),
                  outs_ok |-> /\ (e.need_outs => Len(e.outs) > 0)
                              /\ \A i \in 1..Len(e.outs) : e.outs[i] = "ok",
-                 view_ok |-> ToSet(e.view) = ToSet(e.libview),
+                 view_ok |-> ToSet(e.view) = LibViewOf(e),
                  pre_ok |-> e.fresh_tok = "" \/ (e.out_tok = e.fresh_tok /\ e.out_len = e.fresh_len),
                  rt_ok |-> ~(RtApplies(e) /\ <<e.kind, e.rt_dir>> \in RoundTripExact /\ e.rt_in # e.rt_back)]
 
 WellFormed(e) == /\ <<e.fam, e.cmd>> \in AllCmds /\ e.input \in Inputs /\ e.lib \in LibVerdicts
-                 /\ e.libval \in {"ok", "fail", "n/a"} /\ e.pre \in PreStates
+                 /\ e.libval \in {"ok", "fail", "n/a"} /\ e.pre \in PreStates /\ e.sel \in {"n/a", "in", "out"}
+                 /\ (e.filt # <<>> => Len(e.libchars) = Len(e.libview))
 
 TInit == tl = 1 /\ Init /\ vdisk = EmptyMap
 Step(e) == CASE e.ev = "Reset" -> TRUE
